@@ -390,6 +390,24 @@ def normalised_equations(run, rows):
     return out
 
 
+def cells_connected(itfs):
+    """(cells with an internal interface, do the internal interfaces link them into one group)"""
+    cells = set()
+    for i in itfs:
+        cells.update(i["cells"])
+    parent = {c: c for c in cells}
+
+    def find(c):
+        while parent[c] != c:
+            parent[c] = parent[parent[c]]
+            c = parent[c]
+        return c
+    for i in itfs:
+        a, b = i["cells"]
+        parent[find(a)] = find(b)
+    return cells, len({find(c) for c in cells}) == 1
+
+
 def _tissue_case_b04(spec):
     ts, fit = spec["tissue"], spec["fit"]
     t = make_tissue(ts)
@@ -456,17 +474,7 @@ def _tissue_case_b04(spec):
         if badl:
             fails.append(_fail(spec, "lonely-cell-nonzero", f"cell {badl[0]} touches no internal interface but has pressure {p[badl[0]]!r}"))
     # ---- connectivity of the cells that have an internal interface
-    parent = {c: c for c in cells_with}
-
-    def find(c):
-        while parent[c] != c:
-            parent[c] = parent[parent[c]]
-            c = parent[c]
-        return c
-    for itf in itfs:
-        a, b = itf["cells"]
-        parent[find(a)] = find(b)
-    connected = len({find(c) for c in cells_with}) == 1
+    _, connected = cells_connected(itfs)
     if not connected:
         info["count"]["not_connected_not_judged"] += 1
         return dict(spec=spec, info=info, fails=fails)
@@ -588,8 +596,8 @@ def _orient_case_b04(spec):
         except Exception as e:      # noqa
             fails.append(_fail(spec, "pressure-step-raises", f"{type(e).__name__}: {str(e)[:200]}"))
             return dict(spec=spec, info=info, fails=fails)
-        eqs.append((normalised_equations(run, rows), p, [len(x) for x in run.ibe]))
-    (e0, p0, n0), (e1, p1, _) = eqs
+        eqs.append((normalised_equations(run, rows), p, cells_connected(itfs)[1]))
+    (e0, p0, conn), (e1, p1, _) = eqs
     kind = "+".join(k for k in ("shift", "flip", "cellorder") if ops.get(k) not in (None, [], False)) or "identity"
     if e0 is None or e1 is None:
         fails.append(_fail(spec, "row-structure", "a row does not consist of one +1 and one -1"))
@@ -605,7 +613,10 @@ def _orient_case_b04(spec):
         fails.append(_fail(spec, f"equation-orientation:{kind}", f"interface {k[1][:3]}..{k[1][-1]} between cells {sorted(k[0])}: "
                                                                  f"p({min(k[0])}) - p({max(k[0])}) = {e0[k]:.9g} originally, {e1[k]:.9g} in the variant "
                                                                  f"({len(bad)} of {len(e0)} equations differ)"))
+    elif not conn:
+        info["count"]["pressures_not_compared_not_connected"] += 1
     else:
+        info["count"]["variant_pressures_compared"] += 1
         dp = max(abs(p0[c] - p1[c]) for c in p0)
         if dp > 1e-8 * max(1.0, max(abs(v) for v in p0.values())):
             fails.append(_fail(spec, f"pressure-orientation:{kind}", f"same equations but pressures differ by {dp:.3g}"))
@@ -625,19 +636,19 @@ _fit_for = S.pick_fit
 
 def cases_b06(tier, seed):
     rng = np.random.default_rng(seed + 606)
-    n = 1100 if tier == "quick" else 26000
+    n = 600 if tier == "quick" else 16000
     out = []
     for i in range(n):
         u = rng.random()
         if u < 0.3:                                            # straight equilibrium
-            ts = S.small_tissue_spec(rng, [0, 0, 0, 1, 3, 6], subset_p=0.15, vor_subset_p=0.4)
+            ts = S.small_tissue_spec(rng, [0, 0, 0, 1, 3, 6], subset_p=0.15, vor_subset_p=0.4, vor_n=(25,))
         elif u < 0.6:                                          # curved equilibrium
-            ts = S.small_tissue_spec(rng, [2, 4, 8, 15], moebius=float(rng.choice([0.3, 0.6, 0.9])), subset_p=0.15, vor_subset_p=0.4)
+            ts = S.small_tissue_spec(rng, [2, 4, 8, 15], moebius=float(rng.choice([0.3, 0.6, 0.9])), subset_p=0.15, vor_subset_p=0.4, vor_n=(25,))
         elif u < 0.8:                                          # noisy polygonal
-            ts = S.small_tissue_spec(rng, [0], subset_p=0.15, vor_subset_p=0.4)
+            ts = S.small_tissue_spec(rng, [0], subset_p=0.15, vor_subset_p=0.4, vor_n=(25,))
             ts["noise"] = dict(sigma=float(rng.choice([0.02, 0.1, 0.25])), seed=int(rng.integers(1 << 30)))
         else:                                                  # noisy curved
-            ts = S.small_tissue_spec(rng, [3, 5, 9], moebius=float(rng.choice([0.6, 0.9])), subset_p=0.15, vor_subset_p=0.4)
+            ts = S.small_tissue_spec(rng, [3, 5, 9], moebius=float(rng.choice([0.6, 0.9])), subset_p=0.15, vor_subset_p=0.4, vor_n=(25,))
             ts["noise"] = dict(sigma=float(rng.choice([0.01, 0.03])), seed=int(rng.integers(1 << 30)))
         if rng.random() < 0.5:
             ts["xf"] = dict(angle=float(rng.uniform(0, 2 * math.pi)))           # base pose
@@ -676,7 +687,7 @@ def small_tissues():
 
 def cases_b07(tier, seed):
     rng = np.random.default_rng(seed + 707)
-    n_rand, n_all = (800, 8) if tier == "quick" else (18000, 150)
+    n_rand, n_all = (600, 8) if tier == "quick" else (16000, 150)
     out = []
 
     def tissue(small=False):
@@ -687,11 +698,11 @@ def cases_b07(tier, seed):
             if rng.random() < 0.6 and ts["pts"] >= 2:
                 ts["moebius"], ts["mseed"] = float(rng.choice([0.5, 0.9])), int(rng.integers(1000))
         elif u < 0.35:
-            ts = S.small_tissue_spec(rng, [0, 0, 1, 3, 6], subset_p=0.2, vor_subset_p=0.4)
+            ts = S.small_tissue_spec(rng, [0, 0, 1, 3, 6], subset_p=0.2, vor_subset_p=0.4, vor_n=(25,))
         elif u < 0.75:
-            ts = S.small_tissue_spec(rng, [2, 4, 8, 15], moebius=float(rng.choice([0.3, 0.6, 0.9])), subset_p=0.2, vor_subset_p=0.4)
+            ts = S.small_tissue_spec(rng, [2, 4, 8, 15], moebius=float(rng.choice([0.3, 0.6, 0.9])), subset_p=0.2, vor_subset_p=0.4, vor_n=(25,))
         else:
-            ts = S.small_tissue_spec(rng, [0, 3], subset_p=0.2, vor_subset_p=0.4)
+            ts = S.small_tissue_spec(rng, [0, 3], subset_p=0.2, vor_subset_p=0.4, vor_n=(25,))
             ts["noise"] = dict(sigma=float(rng.choice([0.02, 0.1])), seed=int(rng.integers(1 << 30)))
             if ts["pts"]:
                 ts["moebius"], ts["mseed"] = 0.8, int(rng.integers(1000))
@@ -723,7 +734,7 @@ def cases_b07(tier, seed):
 
 def cases_b04(tier, seed):
     rng = np.random.default_rng(seed + 404)
-    n_turn, n_tis, n_or = (400, 600, 450) if tier == "quick" else (6000, 14000, 10000)
+    n_turn, n_tis, n_or = (400, 500, 400) if tier == "quick" else (6000, 14000, 10000)
     out = []
     for n in range(3, 18):                                     # grid: every n, turning up to 1.5
         for th in (0.0, 1e-3, 0.05, 0.4, 1.0, 1.5):
